@@ -12,7 +12,7 @@
      in messages being accepted from, or sent over, an unencrypted session."
 
   `holdsOn cell obs` is evaluated by the driver on the IMPLEMENTATION's observation of every cell, and
-  Props/C18 proves it for the model's own outcome off the known cells.
+  Props/C18 proves it for the model's own outcome on every cell of the matrix.
 -/
 import IpfixModel.Model.TLSDecision
 namespace Ipfix.C18
@@ -51,10 +51,11 @@ def clientAuthentic (c : Cell) : Bool :=
 def deliveryAllowed (c : Cell) : Bool :=
   clientEncrypted c && (!(c.transport == .tls && c.clientCA) || clientAuthentic c)
 
-/-- the cells of known finding D11: DTLS exporter, `ServerName` unset or an IP literal, the server's
-    certificate is issued by the configured CA and within validity but NOT valid for the expected
-    name / address -/
-def knownD11 (c : Cell) : Bool :=
+/-- the cells of the former finding D11 (repaired in /repo by 90a2eb6; no longer treated specially by
+    `holdsOn`): DTLS exporter, `ServerName` unset or an IP literal, the server's certificate is issued
+    by the configured CA and within validity but NOT valid for the expected name / address. Kept as
+    vocabulary for `Props/C18.dtls_name_check_restored` and `d11_without_hook`. -/
+def formerD11 (c : Cell) : Bool :=
   c.transport == .dtls && (c.peer == .real) &&
   (c.serverName == .unset || c.serverName == .ip || c.serverName == .badIp) &&
   serverChains c && serverInValidity c && !serverNameOK c
@@ -79,7 +80,7 @@ def sessionDefect (c : Cell) (o : Obs) : Option String :=
   if !serverEncrypted c then some "plaintext-session-completed"
   else if !serverChains c then some "untrusted-chain"
   else if !serverInValidity c then some "outside-validity"
-  else if !serverNameOK c then some (if knownD11 c then "dtls-no-name-check" else "name-mismatch")
+  else if !serverNameOK c then some "name-mismatch"
   else if !peerVersionOK c then some "version-below-1.2"
   else match o.version with
     | some v => if v < 12 then some "version-below-1.2" else none
